@@ -105,6 +105,10 @@ def generate(ctx):
                 if acc.get((acxx, tcxx, "swizzle_ct")) and acc.get((acxx, tcxx, "swizzle_dyn")):
                     for m in c05.swizzle_masks(n, rng, 2, False)[: ctx.q(12, 40)]:
                         out.append('CC_SWZ(%s, "%s", %s)' % (tcxx, name(ck="swz", op="swizzle", g=m, nb=nb, rows=1), ", ".join(map(str, m))))
+                elif an in ("avx512f", "avx512cd", "avx512dq") and tcxx == "uint16_t" and acc.get((acxx, tcxx, "swizzle_dyn")):
+                    # only some constant masks are accepted here (aligned contiguous pairs): acceptance probed per mask (CC_SWZ_IF), family with near misses
+                    for m in c05.pair_masks(n, rng, ctx.q(2, 12)):
+                        out.append('CC_SWZ_IF(%s, "%s", %s)' % (tcxx, name(ck="swz", op="swizzle", g=m, nb=nb, rows=1), ", ".join(map(str, m))))
             out.append("#endif")
     return "\n".join(out) + "\n", cases
 
